@@ -7,7 +7,10 @@ line is an element sent by connection 1 (the attacker) or `deliver i`. -/
 
 /-- the last account is what a registration-open / pass-through checker would accept: a name with '@' and '/' -/
 def table : List (String × String) :=
-  [("victim", "vpw"), ("mallory", "mpw"), ("eve", "epw"), ("victim@example.org/x", "xpw")]
+  [("victim", "vpw"), ("mallory", "mpw"), ("eve", "epw"), ("victim@example.org/x", "xpw"),
+   -- legal but awkward account names: format place markers, quotes, blanks, non-ASCII, very long
+   ("ops.%2", "opw"), ("%1", "p1"), ("100%", "p2"), ("a%%b", "p3"), ("{0}", "p4"), ("back\\slash", "p5"),
+   ("q'uo\"te", "p6"), ("sp ace", "p7"), ("jürgen", "p8"), (String.ofList (List.replicate 300 'x'), "p9")]
 
 def lookupPw (u : List Char) : Option (List Char) :=
   (table.find? (fun e => e.1.toList = u)).map (·.2.toList)
@@ -39,23 +42,50 @@ def getPw (u : List Char) : PwRes :=
 
 def cfgStock : Cfg := Cfg.ofGetPassword "example.org".toList getPw md5tok
 
-def str (l : List Char) : String := String.ofList l
+/-- addresses are printed like the harness prints them: bytes outside a small safe set as `~xx` -/
+def escByte (b : UInt8) : String :=
+  let c := Char.ofNat b.toNat
+  if c.isAlphanum ∨ "@./_%{}-".toList.contains c then String.singleton c
+  else "~" ++ String.singleton (hexDigit (b.toNat / 16)) ++ String.singleton (hexDigit (b.toNat % 16))
+
+def str (l : List Char) : String :=
+  String.join ((String.ofList l).toUTF8.toList.map escByte)
+
+/-- op words: `~XX` = the byte XX (hex), `~LONG` = 300 times 'x' -/
+def decBytes : List Char → List UInt8
+  | '~' :: 'L' :: 'O' :: 'N' :: 'G' :: rest => List.replicate 300 (120 : UInt8) ++ decBytes rest
+  | '~' :: a :: b :: rest =>
+    match hexVal a, hexVal b with
+    | some x, some y => UInt8.ofNat (x * 16 + y) :: decBytes rest
+    | _, _ => (String.singleton '~').toUTF8.toList ++ decBytes (a :: b :: rest)
+  | c :: rest => (String.singleton c).toUTF8.toList ++ decBytes rest
+  | [] => []
+termination_by l => l.length
+
+def dec (w : String) : List Char :=
+  match String.fromUTF8? (ByteArray.mk (decBytes w.toList).toArray) with
+  | some s => s.toList
+  | none => w.toList
 
 def parsePayload (w : String) : Option Payload :=
   if w = "-" ∨ w = "x" then some .empty
   else if w = "m" then some .junk
   else match w.splitOn ":" with
-    | ["c", u, p] => some (.creds u.toList p.toList)
+    | ["c", u, p] => some (.creds (dec u) (dec p))
     -- `authzid\0authcid\0password`: the authorization identity is not looked at
-    | ["z", _, u, p] => some (.creds u.toList p.toList)
+    | ["z", _, u, p] => some (.creds (dec u) (dec p))
     -- a DIGEST-MD5 response that also carries authzid="victim@example.org": not looked at either
-    | ["a", claimed, su, sp] => some (.dresp claimed.toList (md5tok su.toList sp.toList) true)
-    | ["d", claimed, su, sp, q] => some (.dresp claimed.toList (md5tok su.toList sp.toList) (q = "a"))
+    | ["a", claimed, su, sp] => some (.dresp (dec claimed) (md5tok (dec su) (dec sp)) true)
+    | ["d", claimed, su, sp, q] => some (.dresp (dec claimed) (md5tok (dec su) (dec sp)) (q = "a"))
     -- a recorded response replayed verbatim: computed over a stale nonce, so it is computed from no digest at all
-    | ["r", claimed, _, _] => some (.dresp claimed.toList "!stale-nonce".toList true)
+    | ["r", claimed, _, _] => some (.dresp (dec claimed) "!stale-nonce".toList true)
     | _ => none
 
-def optStr (w : String) : List Char := if w = "-" then [] else w.toList
+def optStr (w : String) : List Char := if w = "-" then [] else dec w
+
+/-- a `from` / `to` word: "-" = attribute absent, `""` = present and empty -/
+def optAttr (w : String) : Option (List Char) :=
+  if w = "-" then none else if w = "\"\"" then some [] else some (dec w)
 
 def parseIq : String → Option IqType
   | "get" => some .get | "set" => some .set | "result" => some .result | "error" => some .error | _ => none
@@ -70,9 +100,9 @@ def parseEv : List String → Option Ev
   | ["abort2"] => some (.abort true)
   | ["bind", r] => some (.bind (optStr r))
   | ["session"] => some .session
-  | ["msg", f, t] => some (.stanza { kind := .message, sender := optStr f, to := optStr t })
-  | ["pres", ty, f, t] => some (.stanza { kind := .presence (optStr ty), sender := optStr f, to := optStr t })
-  | ["iq", ty, f, t] => (parseIq ty).map fun ty => .stanza { kind := .iq ty, sender := optStr f, to := optStr t, id := "q1".toList }
+  | ["msg", f, t] => some (.stanza { kind := .message, sender := optAttr f, to := optAttr t })
+  | ["pres", ty, f, t] => some (.stanza { kind := .presence (optStr ty), sender := optAttr f, to := optAttr t })
+  | ["iq", ty, f, t] => (parseIq ty).map fun ty => .stanza { kind := .iq ty, sender := optAttr f, to := optAttr t, id := "q1".toList }
   | ["close"] => some .closeStream
   | ["deliver", i] => i.toNat?.map .deliver
   | _ => none
@@ -145,7 +175,7 @@ def victimLogin : List (Nat × Ev) :=
    (0, .auth false "PLAIN".toList (.creds "victim".toList "vpw".toList) false),
    (0, .deliver 0),   -- (with the stock checker this is the next event-loop turn)
    (0, .bind "v".toList),
-   (0, .stanza { kind := .presence [], sender := [], to := [] })]
+   (0, .stanza { kind := .presence [] })]
 
 structure DS where
   stock : Bool := false
